@@ -4,7 +4,7 @@ From Coq Require Import String Ascii List Bool.
 From KV Require Import Lib.Str Model.Vpp Gen.UmlSrc Model.Uml Spec.UmlSpec Proofs.UmlProofs Proofs.UmlFiles
                        Model.UmlBlob Model.UmlWriter Gen.UmlBlobShipped Proofs.UmlBlobDefs Proofs.UmlBlobStruct Proofs.UmlBlobText
                        Proofs.UmlBlobTop Proofs.UmlBlobRound Proofs.UmlBlobVis Proofs.UmlBlobCompose Proofs.UmlBlobCalib Proofs.UmlBlobPins
-                       Model.UmlSem Proofs.UmlSemExample Proofs.UmlSemTop.
+                       Model.UmlDomain Model.UmlSem Gen.UmlSemShipped Proofs.UmlSemExample Proofs.UmlSemCalib Proofs.UmlSemTop.
 Import ListNotations.
 Open Scope string_scope.
 
@@ -136,27 +136,49 @@ Print Assumptions C19_namespace_balanced.
    chosts d W = the project d contains W's rows, every other row (other diagrams, their shapes interleaved, unrelated model
    elements, any order) arbitrary. *)
 
-(* The text layer is transparent.  For EVERY structured blob n whose keys, values, ids, names are plain text without braces
-   (wf_node, nb_node) and that holds no apostrophe, ParseBLOB_Recursive applied to str(bytes) of its printed form returns
-   exactly the dictionary the blob stands for (top_pv: fields by key with later duplicates overriding, reference lists as
-   key_0, key_1, ..., owned elements as child_0, child_1, ... in text order, each with id / name / type).  Composition of
-   the stack-machine theorem (parse_blob_sem), the field theorem (values_segments) and mass_replace o str(bytes) = deletion
-   of the separator characters (mass_repr). *)
+(* The text layer is transparent.  For EVERY structured blob n (Model/UmlWriter.v) in the domain
+     wf_node n    keys, ids, names, reference ids: plain text (printable ASCII without = < > ; \ double quote ( ) ', no blank at the
+                  ends); values: plain text, quoted or not, commas allowed; layout strings made of line breaks, tabs, blanks, ( ) , ;
+                  FREE TEXT properties (IRaw: e.g. documentation=<an HTML page with a CSS block>): anything whose quoted texts are
+                  closed and that has no ';' and no brace OUTSIDE its quoted texts -- braces, ';', '=', ':', apostrophes INSIDE
+                  the quotes are data (the repaired, quote-aware ParseBLOB_Recursive / Get_ValuesFromOutside: K-C19-6);
+     nbq_node n   no brace in ids, names, types, keys, reference ids and UNQUOTED values (C19_adaptor_brace_refuted: needed);
+     quote_ok     the bytes hold no apostrophe, or hold a double quote (then str(bytes) still delimits with apostrophes)
+   ParseBLOB_Recursive applied to str(bytes) of its printed form returns exactly the dictionary the blob stands for (top_pv:
+   fields by key with later duplicates overriding, reference lists as key_0, key_1, ..., owned elements as child_0, child_1, ...
+   in text order, each with id / name / type; a free-text property contributes what Get_ValuesFromOutside makes of that one
+   piece).  Composition of the stack-machine theorem with a string state (parse_blob_sem), the field theorem with the
+   quote-aware split (values_segments) and mass_replace o str(bytes) = deletion of the separator characters (mass_repr). *)
 Theorem C19_adaptor_text_transparent : forall n : wnode,
-  wf_node n = true -> nb_node n = true -> no_char SQ (print_node n) = true ->
+  wf_node n = true -> nbq_node n = true -> quote_ok (print_node n) = true ->
   parse_blob (py_str_bytes (print_node n)) = Some (top_pv n).
-Proof. exact parse_top. Qed.
+Proof. exact parse_top_q. Qed.
 Print Assumptions C19_adaptor_text_transparent.
 
-(* Read-back at the dictionary level, for EVERY structured class diagram (associations included).
-   FULL STATEMENT for what remains: C19_adaptor_roundtrip (below) with associations in the semantic diagram -- the semantic
-   domain has no association ends yet -- and with values that contain ',' (default values such as "nullptr, nullptr") or free
-   text with braces / separators (HTML documentation; K-C19-6).  What is proved here: loading the project the writer produces
-   equals loading with ParseBLOB_Recursive replaced by the structural reading of the drawn blobs (struct_of). *)
-Theorem C19_adaptor_roundtrip_partial : forall W : wdiagram, wf_drawn W = true ->
+(* a brace in an UNQUOTED value is structure for the reader: outside the domain, and the statement fails there *)
+Example C19_adaptor_brace_refuted :
+  let n := WNode "a" None "T" [IField "" "k" "{"] "" in
+  wf_node n = true /\ no_char SQ (print_node n) = true /\ parse_blob (py_str_bytes (print_node n)) <> Some (top_pv n).
+Proof. exact parse_top_refuted. Qed.
+Print Assumptions C19_adaptor_brace_refuted.
+
+(* ... and for the blob of a ROW whose element NAME holds colons (wf_top: as wf_node, the name in the top-level header
+   unrestricted apart from being plain text): the reader cuts the header  id:name:type  at every colon and keeps the first three
+   pieces -- top_pv_c says which name / type entries result; everything else is read as before. *)
+Theorem C19_adaptor_text_transparent_colon : forall n : wnode,
+  wf_top n = true -> nbq_node n = true -> quote_ok (print_node n) = true ->
+  parse_blob (py_str_bytes (print_node n)) = Some (top_pv_c n).
+Proof. exact parse_top_c. Qed.
+Print Assumptions C19_adaptor_text_transparent_colon.
+
+(* The structural level, for EVERY structured class diagram whose drawn blobs lie in the text domain (any nesting, any inert
+   owned elements, reference lists and free text among the properties): loading the project the writer produces equals loading
+   with ParseBLOB_Recursive replaced by the structural reading of the drawn blobs (struct_of).  What the loaded objects MEAN is
+   C19_adaptor_roundtrip (below). *)
+Theorem C19_adaptor_structural : forall W : wdiagram, wf_drawn W = true ->
   load_cdiagram (encode_cdiagram W) (wd_name W) = load_gen (get_model_element (cmelem_rows W)) (struct_of W) (cdelem_rows W).
 Proof. exact load_struct. Qed.
-Print Assumptions C19_adaptor_roundtrip_partial.
+Print Assumptions C19_adaptor_structural.
 
 (* Elements that are not on the selected diagram have no influence: whatever the diagram's own rows give, every project
    that hosts them gives (any two hosting projects agree). *)
@@ -203,13 +225,20 @@ Print Assumptions C19_realised_from_project.
 (* Calibration and non-vacuity on the shipped project (Gen/UmlBlobShipped.v, regenerated from kojen/test/blob.xml on every
    run): the assumed writer reproduces every row the two class diagrams draw or refer to, byte for byte, between the rows of
    the other diagrams; the reader model loads both (10 and 20 classes, 7 inheritance entries each), also from the projects
-   holding only their own rows; 38 of 39 and 40 of 49 of their blobs lie in the domain of the text theorem (the others hold an
-   HTML documentation with braces and separators). *)
+   holding only their own rows; ALL 39 and 49 of their blobs lie in the domain of the text theorem (38 and 40 before the reader
+   was made quote-aware: the others hold an HTML documentation with a CSS block; 48 of 49 without the colon variant: one
+   association has a NAME with a colon); on every one of them the reader model returns the dictionary the theorem states
+   (computed). *)
 Theorem C19_adaptor_calibration :
   (forallb (chosts shipped_cdb) shipped_W = true /\ map wd_name shipped_W = ["ProtocolStack"; "TestClassDiagram"])
-  /\ map (fun W => (List.length (all_nodes W), List.length (filter (fun n => wf_node n && nb_node n && no_char SQ (print_node n)) (all_nodes W)))) shipped_W
-     = [(39, 38); (49, 40)].
-Proof. exact (conj calib_cwriter calib_domain). Qed.
+  /\ (map (fun W => (List.length (all_nodes W), List.length (filter in_text_domain_c (all_nodes W)), List.length (filter in_text_domain (all_nodes W)))) shipped_W
+      = [(39, 39, 39); (49, 49, 48)]
+      /\ flat_map (fun W => map (fun n => (node_id n, node_name n)) (filter (fun n => negb (in_text_domain n)) (all_nodes W))) shipped_W
+         = [("OUDfaI6GAqAA8xe8", Some "Const: This should appear in constructor")])
+  /\ map (fun W => List.length (filter (fun n => wf_node n && nb_node n && no_char SQ (print_node n)) (all_nodes W))) shipped_W = [38; 40]
+  /\ forallb (fun W => forallb (fun n => match parse_blob (py_str_bytes (print_node n)) with Some v => pv_eqb v (top_pv_c n) | None => false end)
+                                (filter in_text_domain_c (all_nodes W))) shipped_W = true.
+Proof. exact (conj calib_cwriter (conj calib_domain (conj calib_domain_before calib_parse))). Qed.
 Print Assumptions C19_adaptor_calibration.
 
 Example C19_adaptor_nonvacuous :
@@ -218,7 +247,8 @@ Example C19_adaptor_nonvacuous :
 Proof. exact one_class_ok. Qed.
 Print Assumptions C19_adaptor_nonvacuous.
 
-(* Outside the domain (known finding K-C19-6): an operation drawn as operator< is read back as operator. *)
+(* Outside the domain (known finding K-C19-7: mass_replace deletes = < > ; ( ) and double quotes from every name and value,
+   also after the K-C19-6 repair): an operation drawn as operator< is read back as operator. *)
 Theorem C19_adaptor_name_refuted :
   op_names (adaptor (encode_cdiagram (one_class_W "operator<")) "D") = Some [["operator"]]
   /\ forallb (fun se => wf_node (we_node (snd se))) (wd_drawn (one_class_W "operator<")) = false.
@@ -235,22 +265,34 @@ Print Assumptions C19_adaptor_source_shape.
    THE SEMANTIC READ-BACK.  D : sdiagram (Model/UmlSem.v) = a class diagram as what it MEANS: classes with stereotypes,
    abstract flag, documentation, operations (visibility, return type reference, modifier, abstract / query / static,
    parameters with basic or referenced type, direction, modifier, default, multiplicity), attributes, enumeration literals;
-   packages with the paths of their members; generalisations / realisations between paths; other shapes; the referenced
-   elements (stereotypes, data types).  Every element carries a layout: its properties in ANY order with any noise
-   properties in between.  encode_project D = the project file the assumed writer produces (tree_of: the structured blobs).
+   packages with the paths of their members; generalisations / realisations between paths; ASSOCIATIONS (documentation, two
+   ends in either order, each with the class path it is attached to, multiplicity or none, aggregation kind, visibility code or
+   the static code 68, getter / setter / read-only flags); other shapes; the referenced elements (stereotypes, data types).
+   Every element carries a layout: its properties in ANY order, with any number of INERT properties in between -- scalars (also
+   with a blank value), reference lists, owned elements the reader has no interest in (model views, qualifiers, ...), free text
+   (an HTML documentation) -- exactly as they are written, and its own line break style (CR LF or LF).  Documentation is a plain
+   text or ANY quoted text (DRaw: line breaks, apostrophes, parentheses; the specification then says what mass_replace leaves of
+   it: K-C19-7).  encode_project D = the project file the assumed writer produces (tree_of: the structured blobs).
    cdiagram_of D / rdiagram_of D = the specification (it never looks at a blob): names, namespaces from the package chain,
    stereotype flags, visibility, parameters with direction / multiplicity / default, realisation vs generalisation, exactly
    the shapes of the selected diagram.
-   Domain sdiagram_ok (boolean, extracted, evaluated by the harness on every generated diagram): names / values / ids plain,
-   brace-free, without ',' and apostrophe, no blank at the ends; ids and element names without ':'; noise keys not among the
-   keys the reader looks for; no property key written twice; type names unchanged by CleanModifiersFromType; every referenced
+   Association objects are specified by rassoc_of: type from the aggregation kind, the defaults of an end without multiplicity
+   depend on the association type known when that end is read (written order), as Association.ParseAssociation does.
+   Domain sdiagram_ok (boolean, extracted, evaluated by the harness on every generated diagram): names / ids plain, brace-free,
+   without ',' and apostrophe, no blank at the ends; VALUES (defaults, initial values, multiplicities, modifiers, documentation)
+   likewise but ',' allowed (nullptr, nullptr) unless nothing but commas is left; ids and element names without ':' (the name of an
+   association may hold colons); noise keys not among the
+   keys the reader looks for; inert properties: in the text domain, their keys none of the keys the reader looks up in that kind
+   of element and containing none of the words it scans keys for, owned elements not of a type the reader would take for a
+   member (inert_ok, per kind of element); str(bytes) of every row delimits with apostrophes (quote_ok); no property key written
+   twice; every referenced
    id known; every element drawn once; a class on at most one package path; package paths made of drawn packages. *)
 Theorem C19_adaptor_roundtrip : forall D : sdiagram, sdiagram_ok D = true ->
   adaptor (encode_project D) (sd_name D) = Some (cdiagram_of D).
 Proof. exact adaptor_roundtrip. Qed.
 Print Assumptions C19_adaptor_roundtrip.
 
-(* ... object for object: Class / Operation / Attribute / Package / Inheritance objects read back exactly as specified *)
+(* ... object for object: Class / Operation / Attribute / Package / Association / Inheritance objects read back exactly as specified *)
 Theorem C19_adaptor_roundtrip_objects : forall D : sdiagram, sdiagram_ok D = true ->
   load_cdiagram (encode_project D) (sd_name D) = Some (rdiagram_of D).
 Proof. exact load_roundtrip. Qed.
@@ -261,6 +303,23 @@ Theorem C19_adaptor_roundtrip_hosted : forall (D : sdiagram) (d : db), sdiagram_
   adaptor d (sd_name D) = Some (cdiagram_of D).
 Proof. exact adaptor_roundtrip_hosted. Qed.
 Print Assumptions C19_adaptor_roundtrip_hosted.
+
+(* Calibration of the semantic domain on the shipped project: THE two shipped class diagrams as semantic diagrams
+   (Gen/UmlSemShipped.v, regenerated on every run from kojen/test/blob.xml: what the semantic model knows about each element
+   -- 157 and 357 properties -- and every other property of the rows, 461 and 999 of them, as inert properties: model views,
+   qualifiers, reference lists, HTML documentation, author and time stamps; documentation texts with line breaks, apostrophes
+   and parentheses as DRaw; defaults such as  nullptr, nullptr ; an association whose name holds a colon; rows with CR LF and rows
+   with LF line breaks).  Writing them reproduces the shipped rows BYTE FOR BYTE (encode_project = the project of the rows read off
+   blob.xml, which C19_adaptor_calibration ties to the stored file), and BOTH lie in the domain of C19_adaptor_roundtrip: the
+   theorem speaks about the shipped project itself.  (The harness also runs the real adaptor on the shipped file and compares
+   with the extracted rdiagram_of.) *)
+Theorem C19_adaptor_semantic_calibration :
+  map sd_name shipped_sem = ["ProtocolStack"; "TestClassDiagram"]
+  /\ map sem_counts shipped_sem = [(10, 2, 1, 7); (20, 3, 8, 7)]
+  /\ map encode_project shipped_sem = map encode_cdiagram shipped_W
+  /\ (map sdiagram_ok shipped_sem = [true; true] /\ map count_slots shipped_sem = [(157, 461); (357, 999)]).
+Proof. exact (conj calib_sem_names (conj calib_sem_counts (conj calib_sem_exact calib_sem_domain))). Qed.
+Print Assumptions C19_adaptor_semantic_calibration.
 
 Example C19_adaptor_roundtrip_nonvacuous :
   (sdiagram_ok ex_S = true /\ wf_drawn (tree_of ex_S) = true) /\ load_cdiagram (encode_project ex_S) "Example" = Some (rdiagram_of ex_S).
